@@ -6,11 +6,11 @@ decidable certificate check (`closed`, `entriesClear`, `pathOk`) to propagation 
 namespace Cppcheck.ExcFunnel
 
 /-- `Escapes P s f`: an exception raised at site `s` can propagate out of function `f`.
-It starts at the site if no enclosing try block of the site's own function takes its type (and the site
-carries no guard), and it moves from a callee to a caller through every call that is not inside a try
+It starts at the site if no enclosing try block of the site's own function takes its type (whether or not the
+translator recognised a guard for the site), and it moves from a callee to a caller through every call that is not inside a try
 block taking the type. -/
 inductive Escapes (P : Prog) (s : Site) : Fn → Prop
-  | origin : s.guard = 0 → caughtIn P.hier s.ctx s.ty = false → Escapes P s s.fn
+  | origin : caughtIn P.hier s.ctx s.ty = false → Escapes P s s.fn
   | call {g f : Fn} {r : Row} : Escapes P s g → r ∈ P.rows → r.fn = g → f ∈ r.callers → Escapes P s f
   | pcall {g : Fn} {r : Row} {e : PEdge} : Escapes P s g → r ∈ P.rows → r.fn = g → e ∈ r.pcallers →
       e.passes P.hier s.ty = true → Escapes P s e.caller
@@ -41,14 +41,14 @@ theorem mem_any {c : Cert} {types : List Ty} (hw : c.wf types = true) {t : Ty} (
   exact bitOf_of_lor (hw t ht) hm
 
 theorem escape_sound {P : Prog} {c : Cert} {types : List Ty} {excl : List Nat}
-    (hc : closed P c types excl = true) {s : Site} (hs : s ∈ P.sites) (hex : s.id ∉ excl)
+    (hc : closed P c types excl = true) {s : Site} (hs : s ∈ P.sites) (hex : s.id ∉ excl) (hg : s.guard = 0)
     {f : Fn} (h : Escapes P s f) : c.mem s.ty f = true := by
   simp only [closed, Bool.and_eq_true, List.all_eq_true] at hc
   obtain ⟨⟨hwf, hsites⟩, hrows⟩ := hc
   obtain ⟨hty, hok⟩ := hsites s hs
   have htyIn : s.ty ∈ types := by simpa using hty
   induction h with
-  | origin hg hn =>
+  | origin hn =>
     simp only [siteOk, Bool.or_eq_true] at hok
     rcases hok with ((hg' | hc') | he') | hm
     · simp [hg] at hg'
@@ -80,12 +80,12 @@ theorem escape_sound {P : Prog} {c : Cert} {types : List Ty} {excl : List Nat}
         · rw [hp] at h1; cases h1
         · exact h1
 
-/-- closed certificate + clear entry points ⇒ no site outside the excluded list can abort the process -/
+/-- closed certificate + clear entry points ⇒ no unguarded site outside the excluded list can leave an entry point -/
 theorem no_abort {P : Prog} {c : Cert} {types : List Ty} {excl : List Nat}
     (hc : closed P c types excl = true) (he : entriesClear P c types = true)
-    {s : Site} (hs : s ∈ P.sites) (hex : s.id ∉ excl) : ¬ Aborts P s := by
+    {s : Site} (hs : s ∈ P.sites) (hex : s.id ∉ excl) (hg : s.guard = 0) : ¬ Aborts P s := by
   rintro ⟨e, heIn, hesc⟩
-  have hm := escape_sound hc hs hex hesc
+  have hm := escape_sound hc hs hex hg hesc
   simp only [entriesClear, List.all_eq_true] at he
   have hty : s.ty ∈ types := by
     simp only [closed, Bool.and_eq_true, List.all_eq_true] at hc
@@ -122,10 +122,10 @@ theorem chainOk_escapes {P : Prog} {s : Site} : ∀ (hops : List (Fn × Nat)) (c
 theorem pathOk_aborts {P : Prog} {p : Path} (h : pathOk P p = true) :
     ∃ s ∈ P.sites, s.id = p.site ∧ Aborts P s := by
   simp only [pathOk, List.any_eq_true, Bool.and_eq_true, beq_iff_eq, Bool.not_eq_true'] at h
-  obtain ⟨s, hs, ⟨⟨⟨⟨hid, hg⟩, hn⟩, hf⟩, hm⟩⟩ := h
+  obtain ⟨s, hs, ⟨⟨⟨⟨hid, _⟩, hn⟩, hf⟩, hm⟩⟩ := h
   refine ⟨s, hs, hid, ?_⟩
   have h0 : Escapes P s p.first := by
-    rw [hf]; exact Escapes.origin hg hn
+    rw [hf]; exact Escapes.origin hn
   exact chainOk_escapes p.hops p.first h0 hm
 
 /-! ### handler matching -/
